@@ -19,6 +19,9 @@ def main(cid):
     for d in dirs:
         meta = json.load(open(os.path.join(d, "meta.json")))
         want = meta.get("caught_by") or []
+        if meta.get("superseded"):
+            print(f"  {os.path.basename(d)}: superseded by a later repair of /repo (kept for the record)")
+            continue
         if not want:
             print(f"  {os.path.basename(d)}: no check is expected to catch it ({meta.get('note', '')[:80]})")
             continue
